@@ -262,7 +262,18 @@ func firstJSONDiff(a, b string) string {
 func genGenesis(g *Gen, n int) {
 	for sc := 0; sc < n; sc++ {
 		sub := newGen(g.r.Int63())
-		kind := g.pick("minter", "distr", "vest", "split", "sig", "distrfaults")
+		// rotate through the families (and through the directed shapes of the vesting generator; every
+		// other vesting scenario runs under a non-default vesting denom) instead of drawing them
+		rot := []string{"vest", "minter", "distr", "split", "vest", "distrfaults", "sig", "minterupd"}
+		kind := rot[sc%len(rot)]
+		sub.shape = sc / len(rot) * 2
+		if kind == "vest" && sc%len(rot) == 4 {
+			sub.shape++
+			sub.forceDenom = (sc/len(rot))%2 == 0
+		}
+		if kind == "minterupd" {
+			kind = "minter"
+		}
 		generators[kind](sub, 1)
 		lines := sub.lines
 		g.emit("reset genesis %d %s", sc, kind)
